@@ -184,6 +184,7 @@ def state_locals(body, loop_blocks, arms=()):
     loop (or in a break-exit block) and one before it.  Returns {local: {"init": [...], "values": set}}"""
     consts = _const_only_locals(body)
     out = {}
+    headers = [b for b in loop_blocks if any(p_ not in loop_blocks and not body.is_cleanup(p_) for p_ in body.preds()[b])]
     for local, ds in body.defs().items():
         vals = []
         ok = True
@@ -218,7 +219,11 @@ def state_locals(body, loop_blocks, arms=()):
         xb = (lambda b: exit_block(b) or b in arms) if not _is_drop_flag(body, local) else (lambda b: False)
         inside = [v for b, v in vals if b in loop_blocks or xb(b)]
         outside = [v for b, v in vals if not (b in loop_blocks or xb(b))]
-        if inside and len(outside) >= 1:
+        in_loop = [v for b, v in vals if b in loop_blocks]
+        # a value stored only on the way out is state only next to an initialisation *before* the loop (the function's
+        # result assigned in an early-return arm and again after the loop is not)
+        init_before = any(b not in loop_blocks and not xb(b) and any(body.dominates(b, h_) for h_ in headers) for b, v in vals)
+        if inside and len(outside) >= 1 and (in_loop or init_before):
             out[local] = {"init": outside, "values": set(v for _, v in vals)}
     # temporaries that only feed a state local are not state themselves
     feeders = set()
